@@ -7,10 +7,11 @@
 #include <string.h>
 #include <stdlib.h>
 
-enum { OP_FAST_OVER, OP_GENERAL_ATOP, OP_SAME_TWICE, OP_FILL, OP_REGION, OP_TRAP, OP_SHARED_SRC, OP_GRADIENT, OP_SHARED_GRADIENT, OP_SHARED_CLIPPED_SRC, N_BODY_OPS };
+enum { OP_FAST_OVER, OP_GENERAL_ATOP, OP_SAME_TWICE, OP_FILL, OP_REGION, OP_TRAP, OP_SHARED_SRC, OP_GRADIENT, OP_SHARED_GRADIENT, OP_SHARED_CLIPPED_SRC, OP_SHARED_ACCESSOR_SRC, N_BODY_OPS };
 static const char *body_op_name[N_BODY_OPS] = { "fast-path OVER 8888->8888", "general-path ATOP 8888->0565", "same ADD composite twice (cache hit)", "pixman_fill + fill_rectangles",
                                                 "region32 union/subtract", "rasterize_trapezoid a8", "OVER from the shared source", "linear gradient SRC (general iterators)", "SRC from the shared 4-stop gradient (per-thread origin)",
-                                                "OVER from the shared source that has a two-box client clip with source clipping (per-thread offset)" };
+                                                "OVER from the shared source that has a two-box client clip with source clipping (per-thread offset)",
+                                                "OVER from the shared source that is read through accessor callbacks" };
 
 #define DW 3
 #define DH 2
@@ -22,7 +23,7 @@ typedef struct {
     pixman_image_t *dst32, *dst16, *dst8, *src32, *grad;
     pixman_region32_t reg;
     /* shared, read-only after its first use on the main thread */
-    pixman_image_t *shared_src, *shared_grad, *shared_clipped;
+    pixman_image_t *shared_src, *shared_grad, *shared_clipped, *shared_acc;
     int tid;
     uint64_t digest;
 } tctx_t;
@@ -53,6 +54,17 @@ static pixman_image_t *body_make_shared_clipped(uint32_t *pix)
     pixman_region32_t r; pixman_region32_init_rects(&r, b, 2);
     pixman_image_set_clip_region32(s, &r); pixman_region32_fini(&r);
     pixman_image_set_has_client_clip(s, 1); pixman_image_set_source_clipping(s, 1);
+    return s;
+}
+
+/* a shared source read through (pure) accessor callbacks */
+static uint32_t body_acc_read(const void *p, int size) { return size == 1 ? *(const uint8_t *)p : size == 2 ? *(const uint16_t *)p : *(const uint32_t *)p; }
+static void body_acc_write(void *p, uint32_t v, int size) { if (size == 1) *(uint8_t *)p = (uint8_t)v; else if (size == 2) *(uint16_t *)p = (uint16_t)v; else *(uint32_t *)p = v; }
+static pixman_image_t *body_make_shared_acc(uint32_t *pix)
+{
+    for (int i = 0; i < DW * DH; i++) pix[i] = 0xb0604020u + (unsigned)i * 0x03050709u;
+    pixman_image_t *s = pixman_image_create_bits(PIXMAN_a8r8g8b8, DW, DH, pix, DW * 4);
+    pixman_image_set_accessors(s, body_acc_read, body_acc_write);
     return s;
 }
 
@@ -112,6 +124,8 @@ static void body_run(tctx_t *t, int op)
     case OP_SHARED_GRADIENT:
         /* several threads read one gradient image (validated by its first use on the main thread) at different origins */
         pixman_image_composite32(PIXMAN_OP_SRC, t->shared_grad, NULL, t->dst32, 3 * t->tid, 0, 0, 0, 0, 0, DW, DH); break;
+    case OP_SHARED_ACCESSOR_SRC:
+        pixman_image_composite32(PIXMAN_OP_OVER, t->shared_acc, NULL, t->dst32, 0, 0, 0, 0, 0, 0, DW, DH); break;
     case OP_SHARED_CLIPPED_SRC:
         /* the source's clip has to be brought into destination space with a non-zero offset; the image itself must stay untouched */
         pixman_image_composite32(PIXMAN_OP_OVER, t->shared_clipped, NULL, t->dst32, t->tid == 0 ? 1 : -1, t->tid == 2 ? 1 : 0, 0, 0, 0, 0, DW, DH); break;
